@@ -85,6 +85,15 @@ QuadSelect(Q, s, P, k) ==
 QuadOccs(Q, s, P) ==
     IF s > 3 THEN Cl("occs.sym_gt_3", {NONE}) ELSE Cl("occs.gen", {Len(P)})
 
+\* rank_block_unchecked(s, i): occurrences of s before the block (of bs symbols) that contains position i;
+\* only specified for s <= 3 and i <= |Q| (it is an unsafe method with that precondition)
+QuadRankBlock(Q, s, P, i, bs) ==
+    IF s > 3 \/ IsHuge(i) \/ i > Len(Q) THEN ClAny("rank_block.outside_precondition")
+    ELSE Cl("rank_block.gen", {RankP(P, (i \div bs) * bs)})
+
+\* prefetch hints take any position, do nothing observable and never fail
+PrefetchHint == Cl("prefetch.any_position", {0})
+
 QuadOccsSmaller(Q, s) ==
     IF s > 3 THEN Cl("occs_smaller.sym_gt_3", {NONE})
     ELSE Cl("occs_smaller.gen", {Len(SelectSeq(Q, LAMBDA x : x < s))})
